@@ -40,6 +40,8 @@ pub enum Prefix {
 /// advertises about itself may widen what the endpoint accepts
 pub const PEER_RB: u32 = 4096;
 pub const LOCAL_RB: u32 = 16;
+/// port requests one message may carry towards the endpoint
+pub const LOCAL_MAX_RECEIVED_PORTS: usize = 4;
 pub const LOCAL_CS: u32 = 8;
 pub const LOCAL_CQ: u16 = 2;
 
@@ -114,6 +116,10 @@ pub fn alphabet(lp: u32, pp: u32) -> Vec<(String, Vec<Vec<u8>>)> {
         }
         h
     }]));
+    // an unfinished port-request message that keeps growing with fresh port numbers (2 ports = 8 credits per frame)
+    for (k, base) in [(0u32, 410u32), (1, 412), (2, 414), (3, 416)] {
+        a.push(m(&format!("PortData:lp:grow{k}"), Msg::PortData { port: lp, first: k == 0, last: false, wait: false, ports: vec![base, base + 1], ids: None }));
+    }
     a.push(("PortData-trailing".into(), vec![{
         let mut f = Msg::PortData { port: lp, first: true, last: true, wait: false, ports: vec![600], ids: None }.encode();
         f.extend_from_slice(&[1, 2]);
@@ -208,7 +214,7 @@ impl Scenario for PeerScenario {
         let o2 = obs.clone();
         let root = async move {
             env.explore(false);
-            let local_cfg = Cfg { connect_queue: LOCAL_CQ, max_ports: 8, ..cfg(LOCAL_CS, LOCAL_RB, 32, 2, 2) };
+            let local_cfg = Cfg { connect_queue: LOCAL_CQ, max_ports: 8, max_received_ports: LOCAL_MAX_RECEIVED_PORTS, ..cfg(LOCAL_CS, LOCAL_RB, 32, 2, 2) };
             let link = LinkOpts { capacity: 64, deliver_cap: 64, eof_on_drop: true };
             let (ea, eb) = env.link(link, &[]);
             let ready = env.endpoint("A", 1, local_cfg, ea);
@@ -520,6 +526,20 @@ impl Scenario for PeerScenario {
                     if prefix == Prefix::ConnectedIdle && accepted > LOCAL_RB as u64 + 64 {
                         v.fail("C08", "buffered-beyond-receive-buffer", format!("{accepted} payload bytes accepted for a port whose receiver does not read (receive_buffer {LOCAL_RB})"));
                     }
+                    // a port-request message that grew past max_received_ports must have been refused to the reading user
+                    let mut cur = 0usize;
+                    let mut most = 0usize;
+                    for f in &o.frames {
+                        if f.ends_with(":grow0") {
+                            cur = 2;
+                        } else if f.contains(":grow") && cur > 0 {
+                            cur += 2;
+                        }
+                        most = most.max(cur);
+                    }
+                    if prefix == Prefix::Connected && most > LOCAL_MAX_RECEIVED_PORTS && !o.local_errors.iter().any(|e| e.starts_with("recv:")) {
+                        v.fail("C08", "port-request-limit-not-enforced", format!("an unfinished port-request message carried {most} ports (limit {LOCAL_MAX_RECEIVED_PORTS}) and the reading user saw no error; frames {:?}", o.frames));
+                    }
                 }
             }
             v.outcome = format!("{:?}|{:?}|{:?}", o.result, o.probe, o.alive_probe_ok);
@@ -577,6 +597,10 @@ pub fn scenarios(tier: Tier) -> Vec<Arc<dyn Scenario>> {
     // far beyond the endpoint's own receive buffer, although still within the (larger) buffer the peer advertised for itself
     out.push(Arc::new(PeerScenario { prefix: Prefix::ConnectedIdle, seq: vec![full; 12] }));
     out.push(Arc::new(PeerScenario { prefix: Prefix::ConnectedIdle, seq: vec![full; 24] }));
+    // a port-request message that never ends and exceeds max_received_ports, each frame within credit
+    let grow: Vec<usize> = (0..4).map(|k| a.iter().position(|(n, _)| *n == format!("PortData:lp:grow{k}")).unwrap()).collect();
+    out.push(Arc::new(PeerScenario { prefix: Prefix::Connected, seq: grow.clone() }));
+    out.push(Arc::new(PeerScenario { prefix: Prefix::Connected, seq: vec![grow[0], grow[1], grow[2], grow[3], grow[1], grow[2]] }));
     // OpenPort flood beyond connect_queue
     let open = a.iter().position(|(n, _)| n == "OpenPort:w:new").unwrap();
     let open2 = a.iter().position(|(n, _)| n == "OpenPort:max").unwrap();
